@@ -246,6 +246,8 @@ impl C14 {
         fams.add("d1 - d2 against the proleptic Gregorian calendar", vec![core.len() as u64, core.len() as u64]);
         fams.add("conversion to every named zone keeps the instant", vec![tznames.len() as u64, if thorough { 12 } else { 4 }]);
         fams.add("conversion to +-HH:MM keeps the instant or is refused", vec![2, 100, 100, 2]);
+        // fraction digits are decimal digits: every 4-digit fraction, and for 5..9 digits 2000 values spread over the range
+        fams.add("fractional seconds: every 4-digit fraction; 2000 values of each length 5..9", vec![10_000 + 5 * 2000]);
         C14 { fams, instants, core, tznames, nows, ctx: Lazy::new() }
     }
 
@@ -293,7 +295,7 @@ impl Space for C14 {
         Meta {
             id: "C14",
             level: "exploration",
-            rule: "instants: 11 boundary years x {Jan 1, Feb 28, Feb 29, Mar 1, Jun 30, Dec 31} x 4 times (incl. .000000001 and .999999999) x 11 zone spellings (none, 6 fixed offsets incl. +HHMM, 4 named zones), each written in 10 pattern forms (ISO space/T, date only, no seconds, ordinal, month-name US/astronomical, 12-hour, ctime, AD); fractional seconds of 1..12 digits; 12 time-only literals x 7 clock values incl. DST-gap days; literal offsets +-HH:MM / +-HHMM for all HH 00..99; (d+t)-d=t and (d-t)+t=d for a core of instants x 26 whole-nanosecond durations in 8 units; d1-d2 for all ordered pairs of the core against own days-from-civil arithmetic; conversion of instants to every chrono-tz zone name and to every +-HH:MM with HH,MM in 00..99. Non-trivial = judged; distinct by query text".into(),
+            rule: "instants: 11 boundary years x {Jan 1, Feb 28, Feb 29, Mar 1, Jun 30, Dec 31} x 4 times (incl. .000000001 and .999999999) x 11 zone spellings (none, 6 fixed offsets incl. +HHMM, 4 named zones), each written in 10 pattern forms (ISO space/T, date only, no seconds, ordinal, month-name US/astronomical, 12-hour, ctime, AD); fractional seconds of 1..12 digits, every 4-digit fraction and 2000 spread values of each length 5..9; 12 time-only literals x 7 clock values incl. DST-gap days; literal offsets +-HH:MM / +-HHMM for all HH 00..99; (d+t)-d=t and (d-t)+t=d for a core of instants x 26 whole-nanosecond durations in 8 units; d1-d2 for all ordered pairs of the core against own days-from-civil arithmetic; conversion of instants to every chrono-tz zone name and to every +-HH:MM with HH,MM in 00..99. Non-trivial = judged; distinct by query text".into(),
             assumptions: vec![
                 "chrono-tz zone data gives the offset of a named zone at a local time (trusted base)".into(),
                 "patterns that do not determine a date (ISO week without weekday, month-day without year) are not judged".into(),
@@ -595,6 +597,25 @@ impl C14 {
                     }
                     _ => (q, Plan::Skip),
                 }
+            }
+            8 => {
+                let (len, val): (usize, u64) = if d[0] < 10_000 {
+                    (4, d[0])
+                } else {
+                    let k = d[0] - 10_000;
+                    let len = 5 + (k / 2000) as usize;
+                    let range = 10u64.pow(len as u32);
+                    // a stride coprime to the range visits well-spread values (last digit varies)
+                    (len, ((k % 2000) * 4_999_999 + 7) % range)
+                };
+                let frac = format!("{:0width$}", val, width = len);
+                let q = format!("#2020-01-02 03:04:05.{}#", frac);
+                let mut f9 = frac.clone();
+                while f9.len() < 9 {
+                    f9.push('0');
+                }
+                let c = Civil { y: 2020, mo: 1, d: 2, h: 3, mi: 4, s: 5, ns: f9.parse().unwrap() };
+                (q, Plan::Literal { want: Ok(vec![instant(&c, 0)]), civil: Some((c, vec![0], None)) })
             }
             _ => {
                 let sign = if d[0] == 0 { '+' } else { '-' };
